@@ -34,7 +34,7 @@ def cases(draw, tier):
     case = {"sub": sub, "n": n, "kind": kind, "seed": draw(st.integers(0, 10**6)), "nrhs": nrhs,
             "rhs": draw(st.sampled_from(["generic", "generic", "grade"])), "g": g,
             "x0": draw(st.sampled_from(["zero", "drawn", "none"])), "m": draw(st.integers(1, n + 5)),
-            "tol_exp": draw(st.sampled_from([-12, -10, -8, -6]))}
+            "tol_exp": draw(st.sampled_from([-12, -10, -8, -6])), "crhs": draw(st.integers(1, 6)) == 1}
     if sub == "grade":
         case["rhs"] = "grade"
         case["m"] = draw(st.integers(g, n + 5))
@@ -104,6 +104,9 @@ def build(case):
         X0 = np.zeros((n, k), dtype=B.dtype)
     if np.iscomplexobj(A):
         B, X0 = B.astype(np.complex128), X0.astype(np.complex128)
+    elif case.get("crhs") and case["rhs"] == "generic":  # complex right-hand side (and guess) for a real operator
+        B = B + 1j * rng.standard_normal(B.shape)
+        X0 = X0.astype(np.complex128) * (1 + 1j)
     if case["nrhs"] == 0:
         B, X0 = B[:, 0], X0[:, 0]
     return A, B, X0, float(np.linalg.cond(X))
